@@ -339,16 +339,42 @@ def default_names(types):
     return out
 
 
-def random_names(rng, n):
+def random_names(rng, n, maxlen=4):
+    """Distinct atom names as opaque words: upper AND lower case (Cl1, Br2), digits first, primes and stars (C1', O5*),
+    length 1..maxlen, and - often - names that differ from an earlier one ONLY by the case of a letter (Ha / HA)."""
     seen = set()
     out = []
-    alpha = "ABCDEFGHJKLMNPQRSTUVWXYZ0123456789'*"
+    alpha = "ABCDEFGHJKLMNPQRSTUVWXYZ0123456789'*abcdefghiklmnorstuxyz"
     while len(out) < n:
-        s = "".join(rng.choice(alpha) for _ in range(rng.randint(1, 4)))
+        base = [x for x in out if any(ch.isalpha() for ch in x)]
+        if base and rng.random() < 0.3:
+            b = rng.choice(base)
+            k = rng.choice([i for i, ch in enumerate(b) if ch.isalpha()])
+            s = b[:k] + b[k].swapcase() + b[k + 1:]
+        else:
+            s = "".join(rng.choice(alpha) for _ in range(rng.randint(1, maxlen)))
         if s not in seen:
             seen.add(s)
             out.append(s)
     return out
+
+
+def mixed_case_names(rng, names):
+    """the same names as a MOL2 writer that keeps element capitalisation would spell them (Cl1, Br2, Ha/HA ...): a
+    bijective respelling, possibly with pairs that differ by case only"""
+    out = []
+    for k, nm in enumerate(names):
+        r = rng.random()
+        v = nm[:1] + nm[1:].lower() if r < 0.5 else nm.lower() if r < 0.65 else nm
+        if v in out:
+            v = nm
+        out.append(v)
+    hyd = [k for k, nm in enumerate(names) if nm[:1] in "Hh"]
+    if len(hyd) >= 2 and rng.random() < 0.6:  # case-only pair, e.g. Ha / HA
+        out[hyd[0]], out[hyd[1]] = "Ha", "HA"
+        if len(set(out)) != len(out):
+            return list(names)
+    return out if len(set(out)) == len(out) else list(names)
 
 
 def case_variant(rng, t):
@@ -1143,6 +1169,9 @@ def gen_lattice_case(rng, k):
     if rng.random() < 0.2:
         g = gen_organic(rng, maxn=9)
         lname, names, types, bonds, total = "organic", default_names(g.types), g.types, g.bonds, None
+    mixed = rng.random() < 0.35
+    if mixed:  # the MOL2 file AND the PDB records spell the names with lower-case letters (Cl1, Ha / HA): same names, must match
+        names = mixed_case_names(rng, names)
     n = len(names)
     pdb_res = rng.choice(["LIG", "LIG", "DMP", "L01"])
     m2_res = pdb_res if rng.random() < 0.7 else rng.choice(["UNK", "<1>"])
@@ -1166,7 +1195,7 @@ def gen_lattice_case(rng, k):
     order = list(range(n))
     if rng.random() < 0.5:
         rng.shuffle(order)
-    case_names = rng.random() < 0.06
+    case_names = (not mixed) and rng.random() < 0.06 and any(nm.lower() != nm for nm in names)
     interleave = rng.random() < 0.2
     ter_after_prot = rng.random() < 0.7
     other_lig = rng.random() < 0.35
@@ -1233,10 +1262,10 @@ def gen_lattice_case(rng, k):
         opts.append(rng.choice(["--neutraln", "--neutralc"]))
     entry = rng.choice(["main_driver", "main_driver", "run_pdb2pqr", "main"]) if not propka else "main_driver"
     layout = {"ligand": lname, "mol2_style": style, "mol2_resname": m2_res, "position": position, "lig_chain": lig_chain, "copies": copies,
-              "reordered": order != list(range(n)), "lowercase_names": case_names, "interleaved_with_water": interleave and nwat > 0,
+              "reordered": order != list(range(n)), "lowercase_names": case_names, "mixed_case_names_both_sides": mixed and any(nm != nm.upper() for nm in names), "interleaved_with_water": interleave and nwat > 0,
               "ter_after_protein": ter_after_prot, "other_ligand": other_lig, "two_chains": two_chains, "waters": nwat, "water_chain": wat_chain}
     return {"tag": f"lattice-{k}", "pdb": pdb, "mol2": mol2, "opts": opts, "files": files, "propka_stub": propka, "entry": entry,
-            "lig_resseqs": lig_resseqs, "lig_names": list(names), "lig_types": list(types), "expected_total": total,
+            "lig_resseqs": lig_resseqs, "lig_names": list(names), "lig_types": list(types), "lig_bonds": [list(b) for b in bonds], "expected_total": total,
             "lig_written": not case_names, "layout": layout}
 
 
@@ -1257,7 +1286,7 @@ def fixed_lattice_cases():
     def add(tag, lines, m2res, resseqs, opts):
         out.append({"tag": "fixed-" + tag, "pdb": "".join(lines) + "END\n", "mol2": mol2_text(types, bonds, names, resname=m2res, resseq=400),
                     "opts": opts, "files": [], "propka_stub": False, "entry": "main_driver", "lig_resseqs": resseqs, "lig_names": list(names),
-                    "lig_types": list(types), "expected_total": total, "lig_written": True, "layout": {"fixed": tag}})
+                    "lig_types": list(types), "lig_bonds": [list(b) for b in bonds], "expected_total": total, "lig_written": True, "layout": {"fixed": tag}})
 
     add("two-copies-two-chains", pa + ["TER\n"] + lig("L", 400, 40.0) + lig("M", 401, 75.0), "LIG", [400, 401], ["--ff=AMBER", "--keep-chain"])
     add("two-copies-one-chain", pa + ["TER\n"] + lig("L", 400, 40.0) + lig("L", 401, 75.0), "LIG", [400, 401], ["--ff=PARSE"])
@@ -1265,6 +1294,12 @@ def fixed_lattice_cases():
     l0 = lig("L", 400, 40.0)
     add("noncontiguous-named", pa + ["TER\n"] + l0[:3] + wat + l0[3:], "LIG", [400], ["--ff=AMBER", "--keep-chain"])
     add("noncontiguous-placeholder", pa + ["TER\n"] + l0[:3] + wat + l0[3:], "UNK", [400], ["--ff=AMBER", "--keep-chain"])
+    # chloro-bromo-methane with the names a MOL2 writer gives (Cl1, Br2, Ha / HA): the PDB records carry the SAME names
+    names, types, bonds, total = ["C1", "Cl1", "Br2", "Ha", "HA"], ["C.3", "Cl", "Br", "H", "H"], [(0, 1, "1"), (0, 2, "1"), (0, 3, "1"), (0, 4, "1")], 0
+    add("mixed-case-names-both-sides", pa + ["TER\n"] + lig("L", 400, 40.0) + wat, "LIG", [400], ["--ff=AMBER", "--keep-chain"])
+    names = ["C1", "Cl1", "Br2", "H1", "h2"]  # no two names equal up to case
+    add("lower-case-letters-both-sides", pa + ["TER\n"] + lig("L", 400, 40.0) + wat, "LIG", [400], ["--ff=PARSE", "--whitespace"])
+    names, types, bonds, total = LAT_LIGANDS["acetate"]
     add("before-protein-same-chain-reversed", lig("A", 400, 40.0, order=list(range(len(names)))[::-1]) + pa + ["TER\n"] + wat, "LIG", [400], ["--ff=SWANSON", "--noopt", "--nodebump"])
     return out
 
@@ -1328,16 +1363,15 @@ def lattice_run(d, case, with_ligand):
     return status, (pqr_rows(out) if status == "ok" and out.exists() else [])
 
 
-def not_written_cause(case, lig, rs):
+def not_written_cause(case, m2_resnames, heavy, rs):
     """Diagnosis from the INPUT only: is this the layout of finding C16-F6 (MOL2 residue name occurs nowhere in the PDB
     and the ligand's records are not contiguous, with heavy atoms on both sides of the gap)?"""
     recs = [l for l in case["pdb"].splitlines() if l.startswith(("ATOM", "HETATM"))]
     mine = [k for k, l in enumerate(recs) if l[22:26].strip() == str(rs)]
     pdb_names = {l[17:20].strip() for l in recs}
-    placeholder = not ({a.res_name for a in lig.atoms.values()} & pdb_names)
+    placeholder = not (set(m2_resnames) & pdb_names)
     if not mine or not placeholder or mine[-1] - mine[0] + 1 == len(mine):
         return "none"
-    heavy = {nm for nm, a in lig.atoms.items() if a.type != "H"}
     frags, cur = [], []
     for k in range(mine[0], mine[-1] + 1):
         if k in mine:
@@ -1350,14 +1384,33 @@ def not_written_cause(case, lig, rs):
 
 
 def oracle_lattice(ctx, d, case):
-    lig = impl_read(case["mol2"])
-    lig.assign_parameters()
-    ligp = {nm: (a.charge, a.radius) for nm, a in lig.atoms.items()}
-    fsum = sum(a.formal_charge for a in lig.atoms.values())
+    # expected ligand parameters BY POSITION from a plain rendering with neutral names (A0, A1 ...): what a name looks
+    # like (case, primes, length) must not enter the expectation
+    names = case["lig_names"]
+    findings = []
+    lig = None
+    try:
+        lig = impl_read(case["mol2"])
+    except Exception as e:  # noqa
+        findings.append(({"site": READ_SITE, "condition": "parsed-molecule-differs-from-text", "field": "raises:" + type(e).__name__},
+                         f"the ligand file (names {names[:6]}) is refused: {type(e).__name__}: {str(e)[:80]}"))
+    if case.get("lig_bonds") is not None:
+        ref = impl_read(mol2_text(case["lig_types"], [tuple(b) for b in case["lig_bonds"]], [f"A{i}" for i in range(len(names))]))
+        ref.assign_parameters()
+        ratoms = list(ref.atoms.values())
+    else:  # older replay records
+        ref = lig
+        ref.assign_parameters()
+        ratoms = [ref.atoms[nm] for nm in names]
+    ligp = {nm: (a.charge, a.radius) for nm, a in zip(names, ratoms)}
+    fsum = sum(a.formal_charge for a in ratoms)
+    heavy = {nm for nm, a in zip(names, ratoms) if a.type != "H"}
+    m2_resnames = {a.res_name for a in lig.atoms.values()} if lig is not None else {case["layout"].get("mol2_resname", "LIG")}
     st0, base = lattice_run(d, case, False)
     st1, rows = lattice_run(d, case, True)
     rec = {k_: case[k_] for k_ in ("tag", "pdb", "mol2", "opts", "files", "propka_stub", "entry", "lig_resseqs", "lig_names", "lig_types",
                                    "expected_total", "lig_written", "layout")}
+    rec["lig_bonds"] = case.get("lig_bonds")
     rec = {"lattice": rec, "status": st1}
     ctx.evaluated(("lattice", core.sha([case["pdb"], case["mol2"], case["opts"], case["entry"]])), True)
     ctx.count("lattice:entry-" + case["entry"])
@@ -1366,9 +1419,9 @@ def oracle_lattice(ctx, d, case):
     for k_, v in case["layout"].items():
         if k_ not in ("mol2_resname", "waters"):
             ctx.count(f"lattice:layout-{k_}={v}")
-    findings = []
-    if sorted(ligp) != sorted(case["lig_names"]) or [lig.atoms[nm].type for nm in case["lig_names"]] != [canon_type(t) for t in case["lig_types"]]:
-        findings.append(({"site": READ_SITE, "condition": "ligand-file-read-as-another-molecule"}, f"atoms read {sorted(ligp)[:6]} vs written {sorted(case['lig_names'])[:6]}"))
+    if lig is not None and (list(lig.atoms)[: len(names)] != list(names) or [a.type for a in list(lig.atoms.values())[: len(names)]] != [canon_type(t) for t in case["lig_types"]]):
+        findings.append(({"site": READ_SITE, "condition": "parsed-molecule-differs-from-text", "field": "atom-name" if list(lig.atoms)[: len(names)] != list(names) else "atom-type"},
+                         f"atoms read {list(lig.atoms)[:6]} vs written {list(names)[:6]}"))
     if case["expected_total"] is not None and abs(fsum - case["expected_total"]) > 1e-9:
         findings.append(({"site": "Mol2Atom.formal_charge", "condition": "total-formal-charge-differs-from-documented-rule"},
                          f"{case['layout']['ligand']}: sum of formal charges {fsum}, by the rule {case['expected_total']}"))
@@ -1401,7 +1454,7 @@ def oracle_lattice(ctx, d, case):
             for nm in case["lig_names"]:
                 hit = [r_ for r_ in mine if r_["name"] == nm]
                 if len(hit) == 0:
-                    findings.append(({"site": LIG_SITE, "condition": "ligand-atom-not-written", "cause": not_written_cause(case, lig, rs)},
+                    findings.append(({"site": LIG_SITE, "condition": "ligand-atom-not-written", "cause": not_written_cause(case, m2_resnames, heavy, rs)},
                                      f"ligand copy {rs}: atom {nm} written 0 times"))
                 elif len(hit) > 1:
                     findings.append(({"site": "main.non_trivial", "condition": "atom-written-twice-other", "ligand_atom": True}, f"ligand copy {rs}: atom {nm} written {len(hit)} times"))
@@ -1991,7 +2044,7 @@ def text_level(ctx, rng, mol_cases, disagree):
     n_gen, n_bad, n_8 = (2500, 2500, 200) if thorough else (330, 300, 40)
     for k in range(n_gen):
         g = gen_organic(rng, maxn=14) if k % 3 else gen_wild(rng)
-        names = default_names(g.types) if rng.random() < 0.5 else random_names(rng, g.n())
+        names = default_names(g.types) if rng.random() < 0.3 else random_names(rng, g.n(), maxlen=8) if rng.random() < 0.6 else mixed_case_names(rng, default_names(g.types))
         rawt = [case_variant(rng, t) for t in g.types]
         gt = gt_of(g.types, g.bonds, names, rng, raw_types=rawt, resname=rng.choice(["LIG", "LIG", "UNK", "<1>", "LIGAND", "A"]))
         r = rng.random()
